@@ -28,6 +28,12 @@
 #include "datetime.h"
 
 #include "snoopy.h"
+#ifdef SNOOPY_CONF_THREAD_SAFETY_ENABLED
+#include "tsrm.h"
+#else
+#define snoopy_tsrm_libcGuard_enter()
+#define snoopy_tsrm_libcGuard_leave()
+#endif
 
 #include <errno.h>
 #include <stdio.h>
@@ -53,6 +59,7 @@ int snoopy_datasource_datetime (char * const resultBuf, size_t resultBufSize, ch
     time_t     curTime;
     struct tm  curLocalTimeBuf;
     const struct tm *curLocalTime;
+    size_t     timeLength;
     char const *formatToUse;
     char       timeBuffer[SNOOPY_DATASOURCE_DATETIME_sizeMaxWithNull];
 
@@ -61,8 +68,10 @@ int snoopy_datasource_datetime (char * const resultBuf, size_t resultBufSize, ch
         return snprintf(resultBuf, resultBufSize, "(error @ time(): %d)", errno);
     }
 
-    // Convert to local time
+    // Convert to local time (libc holds its time zone lock in there - see tsrm.h)
+    snoopy_tsrm_libcGuard_enter();
     curLocalTime = localtime_r(&curTime, &curLocalTimeBuf);
+    snoopy_tsrm_libcGuard_leave();
     if (NULL == curLocalTime) {
         return snprintf(resultBuf, resultBufSize, "(error @ localtime_r())");
     }
@@ -75,7 +84,10 @@ int snoopy_datasource_datetime (char * const resultBuf, size_t resultBufSize, ch
     }
 
     // Format it
-    if (0 == strftime(timeBuffer, SNOOPY_DATASOURCE_DATETIME_sizeMaxWithNull, formatToUse, curLocalTime)) {
+    snoopy_tsrm_libcGuard_enter();   // strftime() calls tzset(): same lock
+    timeLength = strftime(timeBuffer, SNOOPY_DATASOURCE_DATETIME_sizeMaxWithNull, formatToUse, curLocalTime);
+    snoopy_tsrm_libcGuard_leave();
+    if (0 == timeLength) {
         return snprintf(resultBuf, resultBufSize, "(error @ strftime())");
     }
 
